@@ -159,6 +159,22 @@ def r1_flag(cx, rule="C04.R1", only=None):
             if len(mo) == 1 and len(clos) == 1 and (mo[0].callee.name != "map_or" or (mo[0].args[1].is_const and mo[0].args[1].cint() == 0)):
                 ok, why, read = _flag_form_match(clos[0], field)
                 cx.saw(clos[0])
+        if not ok and not read:
+            # the decision is delegated: which request members do the library functions it calls read?
+            seen = set(); work = [body]; tread = set()
+            while work and len(seen) < 12:
+                b0 = work.pop()
+                if b0.path in seen: continue
+                seen.add(b0.path)
+                tread |= _flag_form_match(b0, field)[2]
+                names = {t.callee.path for t in b0.calls() if not t.callee.indirect}
+                for t in b0.calls():
+                    for a in t.args:
+                        if a.is_const and (a.const or {}).get("fn"): names.add(str(a.const["fn"]))
+                for b1 in cx.mir.bodies("varlink"):
+                    if b1.promoted is None and (b1.path in names or b1.parent == b0.path or any(n.strip('"').replace(" ", "") == b1.path.replace(" ", "") for n in names)): work.append(b1)
+            if tread and tread != {field}:
+                why = "the answer is computed by other functions (%s) from request members %s: it must depend on `%s` alone (a request carrying both flags is then misclassified)" % (", ".join(sorted(seen - {body.path}))[:120], sorted(tread), field)
         cx.check(ok, rule, "varlink:Call::%s:flag" % fn, body.sp, why, note_ok="true iff request.%s == Some(true)" % field)
 
 
